@@ -630,6 +630,11 @@ func (m *Monitors) Observe(idx int, r *Result) {
 						// the overtaking delivery was not linked behind its same-key predecessor when it was
 						// published although that predecessor was inside its retention: not the recorded finding
 						sig = "overtake-link-missing"
+					} else if pred := r.Before[b.NotBeforeID]; b.NotBeforeID != uuid.Nil && pred != nil && pred.CompletedAt == nil && ns(pred.ExpiresAt) <= now &&
+						pred.PublishedAt.After(o.PublishedAt) && !m.reopened[oid] && !m.reopened[pred.ID] {
+						// the delivery it was linked behind has expired, unacknowledged, while the older one has not:
+						// the retention of the subscription was shortened between the two publishes (UpdateSubscription)
+						sig = "overtake-retention-shortened"
 					} else if m.reopened[oid] && m.revivedExpired[oid] {
 						// the predecessor's retention had ended before the overtaking message was published (no link
 						// is due then); a seek brought it back regardless: not the recorded finding
